@@ -149,6 +149,7 @@ type TemplateProgram struct {
 	Related      bool // one extra child per related ConfigMap
 	ResyncAfter  float64
 	Teardown     bool // finalize: drop one observed child per call instead of all at once
+	WithStatus   bool // desired children carry a status stanza (which metacontroller must ignore)
 }
 
 func childContentField(r *Resource) string {
@@ -194,7 +195,11 @@ func (tp *TemplateProgram) desiredChild(parent Object, r *Resource, name, ns str
 			md["labels"] = lbl
 		}
 	}
-	return Object{"apiVersion": r.APIVersion(), "kind": r.Kind, "metadata": md, childContentField(r): content}
+	out := Object{"apiVersion": r.APIVersion(), "kind": r.Kind, "metadata": md, childContentField(r): content}
+	if tp.WithStatus {
+		out["status"] = Object{"phase": "Desired", "seen": int64(idx)}
+	}
+	return out
 }
 
 func isReady(o interface{}) bool {
@@ -416,6 +421,7 @@ func NewThing(res *Resource, ns, name string, replicas int, color string) Object
 				"color":    color,
 				"nested":   Object{"a": "x", "b": int64(1)},
 				"items":    []interface{}{Object{"name": "first", "v": "1"}, Object{"name": "second", "v": "2"}},
+				"args":     []interface{}{"--alpha", "--beta"},
 			},
 			"note": "n0",
 		},
